@@ -208,6 +208,7 @@ pub fn a_comp() -> Alphabet {
             "@?a",
             "@@a",
             "(n)",
+            "()",
             "|x{}",
             "@b{1%kg}",
             "@&b{1%l}",
